@@ -17,10 +17,10 @@ package encoding
 //@   safety[C11]
 //@   terminates[C11]
 //@   requires len(line) >= 1 && len(firstTag) >= 1
-//@   requires[C18] @anchoredtag code(string(firstTag), 0) == 1 && hasSuffix(string(firstTag), "=")
+//@   requires[C02,C18] @anchoredtag code(string(firstTag), 0) == 1 && hasSuffix(string(firstTag), "=")
 //@   ensures[C11] len(array) >= 1
 //@   call Index#1:
-//@     assert[C18] @splitpoint imp(ret >= 0, sub(string(line), ret + 1, ret + 1 + len(firstTag)) == string(firstTag))
+//@     assert[C02,C18] @splitpoint imp(ret >= 0, sub(string(line), ret + 1, ret + 1 + len(firstTag)) == string(firstTag))
 //@   loop 1:
 //@     invariant[C11] len(line) >= 1 && imp(!ok, len(array) >= 1)
 //@     decreases ite(ok, len(line) + 1, 0)
@@ -35,7 +35,7 @@ package encoding
 //@   ensures[C03] @rawclean imp(istype(o, *fix.Raw), o.(*fix.Raw).value == old(o.(*fix.Raw).value) || noSOH(o.(*fix.Raw).value))
 //@   call unmarshal#1: lemma wf_kv_intro(noKv)
 //@   call Index#2:
-//@     assert[C18] @groupstart anchored(string(data), startNoTag, noTag)
+//@     assert[C02,C18] @groupstart anchored(string(data), startNoTag, noTag)
 //@   loop 1:
 //@     invariant[C11] 0 <= iter
 //@     invariant[C03] imp(istype(o, *fix.Raw), o.(*fix.Raw).value == old(o.(*fix.Raw).value) || noSOH(o.(*fix.Raw).value))
